@@ -389,7 +389,7 @@ fn law_exceeds(st: &LawStats) -> Option<String> {
 /// witness* and y from a 64-item block.  Rounding witnesses: items whose single-item f32 sketch holds an exact integer >= 1,
 /// i.e. a value r + j that rounded up to j + 1 - the one place where a stored value and its integer level disagree.
 /// They are found by scanning 2^20 (2^22) items per size; the same number of ordinary items is used for the f64 sketcher.
-fn same_set_streams(ctx: &Ctx, base: u64) -> (u64, Vec<Value>) {
+pub fn same_set_streams(ctx: &Ctx, base: u64, key_prefix: &str) -> (u64, Vec<Value>) {
     let n_scan: u64 = ctx.pick(1 << 20, 1 << 22);
     let mut details = Vec::new();
     let mut evals = 0u64;
@@ -446,7 +446,7 @@ fn same_set_streams(ctx: &Ctx, base: u64) -> (u64, Vec<Value>) {
                 });
             evals += (xs.len() * ys.len() * (patterns.len() + 1)) as u64;
             if let Some(w) = bad {
-                ctx.violation(&format!("C03-same-set:{}", vname), &format!("{} m={}: {}", vname, m, w), json!({"kind": "same-set", "variant": vname, "m": m}));
+                ctx.violation(&format!("{}:{}", key_prefix, vname), &format!("{} m={}: {}", vname, m, w), json!({"kind": "same-set", "variant": vname, "m": m}));
                 break;
             }
             details.push(json!({"variant": vname, "m": m, "first_items": xs.len(), "rounding_witnesses": scan, "second_items": ys.len(), "stream_patterns": patterns.len()}));
@@ -491,7 +491,7 @@ pub fn run(ctx: &Ctx) -> i32 {
         }
         ldetails.push(json!({"m": m, "items": st.n, "chi2_dof": st.chi2, "worst_sqrtN_KS_fraction": st.worst_ks, "worst_sqrtN_spearman": st.worst_corr}));
     }
-    let (sevals, sdetails) = same_set_streams(ctx, base << 3);
+    let (sevals, sdetails) = same_set_streams(ctx, base << 3, "C03-same-set");
     evals += sevals;
     println!("C03 same-set streams: {} configurations, rounding witnesses per f32 size: {:?}", sdetails.len(), sdetails.iter().filter(|d| d["rounding_witnesses"] == json!(true)).map(|d| d["first_items"].as_u64().unwrap_or(0)).collect::<Vec<_>>());
     let maxz = pdetails.iter().map(|d| d["z_mean"].as_f64().unwrap_or(0.).abs()).fold(0., f64::max);
